@@ -1001,10 +1001,14 @@ static int stop_pred(void *arg)
 		return 1;
 	if(P.serial)
 		return G.sps >= (uint64_t)P.stop_at && serial_started;
+	/* RootsimStop() is only meaningful once the runtime is up on every rank: all workers have initialised their LPs */
 	int want = 0;
-	for(int r = 0; r < P.n_ranks; r++)
+	for(int r = 0; r < P.n_ranks; r++) {
+		if(!RK[r].global_config->n_threads)
+			return 0;
 		want += (int)RK[r].global_config->n_threads;
-	if(M.workers_inited < want || !want)
+	}
+	if(M.workers_inited < want)
 		return 0;
 	if(G.sps < (uint64_t)P.stop_at)
 		return 0;
